@@ -132,9 +132,9 @@ PROPS["C06"] = {
             "segment up to MB, bottleneck sender side / network / receiver side, MTU varied) x 1-3 transfer phases (direction reversed only after quiescence when "
             "queues are finite, bidirectional when unbounded) x write/read size patterns and reader styles. Non-trivial = a queue dropped at least one segment or "
             "segments arrived out of order; distinct = distinct (descriptor, observed event counts).",
-    "jobs": [{"engine": "tcp", "args": {"n": T(1200, 80000)}}],
+    "jobs": [{"engine": "tcp", "args": {"n": T(1200, 30000)}}],
     "require": {"quick": {"cases_with_queue_drop": 300, "retransmissions_on_wire": 50000, "phases_completed": 1500},
-                "thorough": {"cases_with_queue_drop": 20000}},
+                "thorough": {"cases_with_queue_drop": 8000}},
     "assumptions": _TCP_ASSUME + ["connections are established before bulk traffic starts (a lost SYN has no retransmission and is outside the statement)"],
     "timeout": {"quick": 1500, "thorough": 14400},
 }
